@@ -79,8 +79,22 @@ def find_witness(n, clauses, result, fix_flips, fix_vars, fix_clauses):
     valid permutation of positions)."""
     M = len(clauses)
     wit = []
-    flipss = [tuple([1] * n)] if fix_flips else list(itertools.product((1, -1), repeat=n))
-    perms = [tuple(range(1, n + 1))] if fix_vars else list(itertools.permutations(range(1, n + 1)))
+    # a component is free (False), the identity (True) or given explicitly (a sequence)
+    if isinstance(fix_flips, (list, tuple)):
+        flipss = [tuple(fix_flips)]
+    else:
+        flipss = [tuple([1] * n)] if fix_flips else list(itertools.product((1, -1), repeat=n))
+    if isinstance(fix_vars, (list, tuple)):
+        perms = [tuple(fix_vars)]
+    else:
+        perms = [tuple(range(1, n + 1))] if fix_vars else list(itertools.permutations(range(1, n + 1)))
+    if isinstance(fix_clauses, (list, tuple)):
+        want = tuple(fix_clauses)
+        for fl in flipss:
+            for pm in perms:
+                if apply_shuffle(clauses, fl, pm, want) == [list(c) for c in result]:
+                    wit.append((fl, pm, want))
+        return wit
     res_t = [tuple(c) for c in result]
     res_sorted = sorted(res_t)
     for fl in flipss:
@@ -261,10 +275,14 @@ def make_body(case):
     if entry == 'lib':
         from cnfgen.transformations.shuffle import Shuffle
 
+        ex = case.get('explicit') or [None, None, None]
+
         def body():
             F = mk(n, clauses)
-            G = Shuffle(F, 'fixed' if nf else 'shuffle', 'fixed' if nv else 'shuffle',
-                        'fixed' if nc else 'shuffle')
+            G = Shuffle(F,
+                        list(ex[0]) if ex[0] is not None else ('fixed' if nf else 'shuffle'),
+                        list(ex[1]) if ex[1] is not None else ('fixed' if nv else 'shuffle'),
+                        list(ex[2]) if ex[2] is not None else ('fixed' if nc else 'shuffle'))
             return G.number_of_variables(), [list(c) for c in G.clauses()]
         return body
     text = mk(n, clauses).to_dimacs()
@@ -323,8 +341,16 @@ def judge(case, x):
         return out, None
     if sorted(len(c) for c in got) != sorted(len(c) for c in clauses):
         bad('widths', 'multiset of clause widths changed')
-    wit = find_witness(n, clauses, got, nf, nv, nc)
-    if not wit:
+    ex = case.get('explicit') or [None, None, None]
+    wit = find_witness(n, clauses, got,
+                       tuple(ex[0]) if ex[0] is not None else nf,
+                       tuple(ex[1]) if ex[1] is not None else nv,
+                       tuple(ex[2]) if ex[2] is not None else nc)
+    if not wit and any(e is not None for e in ex):
+        bad('mixed:explicit-part-not-applied',
+            'result %r of %r is not explained by the explicit arguments %r (the other components '
+            'free / switched off as %r)' % (got, clauses, ex, case['switches']))
+    elif not wit:
         # is it at least explained ignoring the switches?
         loose = find_witness(n, clauses, got, False, False, False)
         if loose:
@@ -459,6 +485,18 @@ def shards(tier, seed):
         for sw in SWITCHES:
             rnd.append({'entry': 'cnfshuffle', 'n': n, 'clauses': cls, 'switches': list(sw),
                         'asymmetric': (n, cls) in ASYM})
+    # mixed mode: some components given explicitly, the others drawn at random
+    # or switched off -- every combination, with non-constant explicit values
+    for (n, cls) in [ASYM[0], ASYM[1], SYM[0]]:
+        M_ = len(cls)
+        e_fl = [(-1 if i % 2 == 0 else 1) for i in range(n)]
+        e_pm = list(range(2, n + 1)) + [1]
+        e_cp = list(range(1, M_)) + [0]
+        for mask in range(1, 7):              # at least one explicit, at least one not
+            ex = [e_fl if mask & 1 else None, e_pm if mask & 2 else None, e_cp if mask & 4 else None]
+            for rest in ((False, False, False), (True, True, True)):
+                rnd.append({'entry': 'lib', 'n': n, 'clauses': cls, 'switches': list(rest),
+                            'explicit': ex, 'asymmetric': (n, cls) in ASYM})
     for sw in SWITCHES:
         rnd.append({'entry': 'cnfgen-T', 'n': 2, 'clauses': ASYM[1][1], 'switches': list(sw),
                     'asymmetric': True})
